@@ -53,7 +53,7 @@ PURE_FUNCS = {
     "utils.isDbWritable", "utils.findWritableDb", "utils.isSubpath", "utils.isRealFilename",
     "utils.extraDirPath", "utils.guessProduct", "utils.deprecated", "utils.is_string", "utils.Flavor",
     "Product", "Database", "Table", "EupsException", "ProductNotFound", "RuntimeError", "TagNotRecognized",
-    "self.findProduct", "self.findProducts", "self.findTaggedProduct", "self.getProduct", "self.getUpsDB", "self.isUserTag",
+    "self.findProduct", "self.findProducts", "self._findDeclarations", "self.findTaggedProduct", "self.getProduct", "self.getUpsDB", "self.isUserTag",
     "self.isTag", "self.isSetup", "self.uses", "self._databaseFor", "self._userStackCache",
     "self.tags.getTag", "self.tags.owners.get", "hooks.config.Eups.defaultProduct.get",
 }
@@ -65,7 +65,7 @@ FRONT_PURE_FUNCS = {
 }
 # attribute calls considered pure whatever the receiver (string / list / dict / value-object methods)
 PURE_ATTRS = {"join", "startswith", "endswith", "split", "get", "append", "items", "keys", "values", "format",
-              "lower", "upper", "strip", "read", "readlines", "fileno", "stackRoot", "getTable", "dependencies",
+              "lower", "upper", "strip", "rstrip", "read", "readlines", "fileno", "stackRoot", "getTable", "dependencies",
               "users", "getDeclareOptions", "getFallbackFlavors", "getTag", "isGlobal", "__str__", "_getUserTagDb",
               "index", "pop", "copy", "extend", "insert", "sort", "count", "find", "replace", "close"}
 
